@@ -186,3 +186,12 @@ PROPS["C17"] = {
     "level_note": "manager states with 0-2 registered systems, one mapping entry each (shape-bounded); public SetCurrent(x) with an unregistered system x is outside the contract (would break MI); oop_ext Callback semantics assumed (A10: Register idempotent per listener, Unregister of an absent listener is a no-op, a call invokes each listener once); UpdateObjects/Register of value objects (weak references) not modelled",
     "trusted": STD_TRUSTED + ["oop_ext Callback/Singleton/interface decorators (A10), modelled in pyvc/callbacks.py"],
 }
+
+PROPS["C06"] = {
+    "tasks": lambda tier: [("table_c06", {"chunk": c, "nchunks": 7}) for c in range(7)],
+    "level": "proof",
+    "level_text": "Exhaustive over the shipped table: the coefficient tuples of all 1548 rows are read, as exact decimal text, from the real AST of posc.FillUnitDatabaseWithPosc on every run (and cross-checked, row by row, against the slope of the to-base closure the real code builds, executed by the interpreter). A unit symbol is decomposed by the table's own grammar (one '/', factors separated by '.', integer exponent suffixes, numeric prefixes such as 1000ft3, registered symbols as atoms; a registered 'X<e>' counts as a power of X only when named after X). For each of the ~970 decomposable rows the obligation factor(u) x c_T == product of the component factors (c_T: the same product for the quantity type's base symbol) is decided in exact rational arithmetic, and for each of the ~150 atomic rows named '<SI prefix><name of X>' the obligation factor == 10^(n.e) x factor(X); the tolerance is the precision the rows are written in (half a unit in the last written digit of every non-exact literal involved, floor 1e-9). Rows that genuinely disagree with their parts are recorded one by one as known findings (or repaired); any other row that starts to disagree - one digit in one tuple - fails its own named obligation with a native replay.",
+    "level_note": "symbols with two or more '/' are written both for a/(b.c) and a/(b/c) in the table and are not read (ambiguous); affine units enter through their slope; the equivalence with 'a Scalar in the named unit equals the product/quotient of Scalars in the component units' goes through C04's magnitude lemma and is replayed natively by probe c06_row; ground arithmetic with Python Fractions (no solver)",
+    "trusted": ["Python fractions.Fraction (exact rational arithmetic)", "ast.parse reads the literals CPython runs (A4); closures cross-checked by executing their real AST"],
+    "technique": "contract-based deductive verification: per-row ground obligations of the table function's quantified postcondition, generated from the real AST, decided in exact rational arithmetic",
+}
